@@ -75,6 +75,7 @@ type FV struct {
 	implUsed map[string]types.Type // interface name -> type
 	sliceElems map[string]string
 	guardsOK   int
+	freeVarEntry map[string]Term
 	entryScript *Node
 	vacuous    bool
 	leaves     []*Node
@@ -278,9 +279,9 @@ func (fv *FV) zero(t types.Type) Term {
 	case strings.HasPrefix(s, "pv_Sl_"):
 		es := fv.elemSortOfType(t)
 		ez := fv.zeroOfSort(es, elemType(t))
-		r = Term{S: fmt.Sprintf("(%s_mk ((as const (Array Int %s)) %s) 0)", s, es, ez.S), Sort: s}
+		r = Term{S: fmt.Sprintf("(%s_mk %s 0)", s, fv.constArray(es, ez)), Sort: s}
 		if a, ok := t.Underlying().(*types.Array); ok {
-			r = Term{S: fmt.Sprintf("(%s_mk ((as const (Array Int %s)) %s) %d)", s, es, ez.S, a.Len()), Sort: s}
+			r = Term{S: fmt.Sprintf("(%s_mk %s %d)", s, fv.constArray(es, ez), a.Len()), Sort: s}
 		}
 	case strings.HasPrefix(s, "pv_S_"):
 		st := t.Underlying().(*types.Struct)
@@ -377,3 +378,14 @@ func (fv *FV) heapSort(name string, valSort string) string {
 
 // assumption bookkeeping
 func (fv *FV) assume(code string) { fv.assumptions[code] = true }
+
+// constArray: an array all of whose elements are v. Value sorts use SMT constant arrays; for
+// uninterpreted element sorts (cvc5 rejects non-value constants there) a declared array with an axiom.
+func (fv *FV) constArray(es string, v Term) string {
+	if es == SInt || es == SBool {
+		return fmt.Sprintf("((as const (Array Int %s)) %s)", es, v.S)
+	}
+	name := "pv_constarr_" + smtName(es)
+	fv.decls.Add(1, name, fmt.Sprintf("(declare-const %s (Array Int %s))\n(assert (forall ((i Int)) (! (= (select %s i) %s) :pattern ((select %s i)))))", name, es, name, v.S, name))
+	return name
+}
